@@ -27,11 +27,31 @@ def gen_cases(tier, seed):
         rng = gen.rng_for("C16", seed, i)
         cyc = rng.random() < 0.45
         nodes, edges = gen.cyc_any(rng, 10) if cyc else gen.dag_any(rng, 11)
+        fan = None
+        if rng.random() < 0.15:
+            # several multi-edge heavy branches into (out of) one node with a single light edge on the other side:
+            # the closest flow changes that single edge by more than the largest input weight
+            nb = rng.randint(2, 4); L = rng.randint(2, 3); fan = rng.choice(["in", "out"]); cyc = False
+            nodes = ["hub", "end"]; edges = [("hub", "end")] if fan == "in" else [("end", "hub")]
+            for b in range(nb):
+                chain = [f"b{b}_{j}" for j in range(L)]
+                nodes += chain
+                seq = chain + ["hub"] if fan == "in" else ["hub"] + chain
+                edges += list(zip(seq, seq[1:]))
+            if rng.random() < 0.3:
+                edges.append(("end", nodes[2]) if fan == "in" else (nodes[-1], "end")); cyc = True
         node = rng.random() < 0.25
         wt = rng.choice(["int", "int", "float"])
         vals = [0, 1, 2, 3, 5, 8, 9] if wt == "int" else [0.0, 0.5, 1.5, 2.25, 4.0, 7.75]
         elems = nodes if node else edges
         w = {e: rng.choice(vals) for e in elems}
+        if fan:
+            heavy = vals[-1]
+            w = {e: heavy for e in elems}
+            if node:
+                w["end"] = rng.choice(vals[:3])
+            else:
+                w[("hub", "end") if fan == "in" else ("end", "hub")] = rng.choice(vals[:3] + [heavy])
         if all(v == 0 for v in w.values()):
             w[elems[0]] = vals[2]
         ign = rng.sample(elems, rng.randint(1, max(1, len(elems) // 3))) if (rng.random() < 0.3 and len(elems) >= 2) else []
